@@ -471,6 +471,12 @@ pub fn check(env: &mut Env, case: &GenCase) -> Verdict {
         let goal = goal_text(&q.goal);
         let got = env.s.ask(&goal, &q.template.text());
         if let Outcome::Harness(m) = &got {
+            // the transport is itself a findall/3 around the query: when its result list holds things
+            // that are not the encodings it collected, an inner all-solutions call has left its own
+            // solutions on the lifted heap (they end up in the enclosing findall's result)
+            if m.contains("not a tagged term") || m.contains("arg not a list") {
+                return Verdict::fail("enclosing-findall-corrupted:transport", format!("?- {goal}.  the findall/3 of the transport around this query returned elements it never collected ({m})\nreference: {}\nprogram:\n{text}", expected.short()));
+            }
             return Verdict::Discard(format!("harness:{}", m.chars().take(40).collect::<String>()));
         }
         compared += 1;
